@@ -166,6 +166,25 @@ func c06Generate(seed uint64, tier string, index int) json.RawMessage {
 			prog = append(prog, c06Op{Kind: "put", Side: d % 2, Doc: d})
 		}
 		p.Tasks = [][]c06Op{prog}
+	case 9:
+		// directed: a document both sides hold is deleted on both sides while the replication is stopped (each side makes
+		// its own tombstone); when the replication runs again the one-way transfer must leave both sides with the same
+		// tombstone (the receiving side adopts the sender's), also under the version-vector protocol
+		p.Direction = []string{"push", "pull", "push"}[r.Intn(3)]
+		p.Faulty, p.FaultOn, p.Continuous = false, "", true
+		p.Cfg.MaxFaults, p.Cfg.FaultPermille = 0, nil
+		src := 0
+		if p.Direction == "pull" {
+			src = 1
+		}
+		d := r.Intn(4)
+		prog := []c06Op{{Kind: "put", Side: src, Doc: d}, {Kind: "put", Side: src, Doc: (d + 1) % 4}, {Kind: "idle", Ms: 8000}, {Kind: "repl-stop"}, {Kind: "idle", Ms: 1500},
+			{Kind: "delete", Side: src, Doc: d}, {Kind: "delete", Side: 1 - src, Doc: d}}
+		if r.Chance(500) {
+			prog[5], prog[6] = prog[6], prog[5]
+		}
+		prog = append(prog, c06Op{Kind: "put", Side: src, Doc: (d + 2) % 4}, c06Op{Kind: "repl-start"}, c06Op{Kind: "idle", Ms: 3000})
+		p.Tasks = [][]c06Op{prog}
 	case 13:
 		// directed: the storage operations on the replication's own checkpoint documents fail now and then (reading them
 		// when a connection starts, writing them on a tick or when a connection ends) while connections come and go;
